@@ -102,24 +102,28 @@ def run(case, kind, seed=0, n_ops=10, ops=None):
                 return {'skip': 'enumeration-unavailable', 'tags': tags}
     except Exception as e:
         return {'skip': 'enumeration:%s' % type(e).__name__, 'tags': tags}
-    ref_index = {(e[0], e[1]): j for j, e in enumerate(E_ref)}
+    # the admissible assignments of the model decide whether fixed values leave anything: a fixed selection variable keeps
+    # the assignments that give that choice the fixed option (for a selection choice "inactive" is not a fixable value)
+    adm = None
+    try:
+        mg = dsgcase.model_dsg(case, b.opt_order, getattr(b, 'cons_opts', None))
+        res = run_dsgm([sx(['enum_adm', mg])])[0]
+        if not is_model_error(res) and res != 'none':
+            adm = [{c_: o_ for c_, o_ in s_} for s_, _ in res[1]]
+    except Exception:
+        adm = None
 
     def restricted_empty(fixed):
-        """no valid design has all the fixed values (the restricted problem is empty): decoding may then fail explicitly.
-        Decided on the rows of the reference (complete) encoding; a variable the reference encoding does not have (a choice
-        with a single option) restricts nothing."""
-        for r in rows_ref_all:
+        """no valid design has all the fixed values (the restricted problem is empty): decoding may then fail explicitly"""
+        if adm is None:
+            return None
+        for sigma in adm:
             ok = True
             for i, v in fixed.items():
                 e = E[i]
-                j = ref_index.get((e[0], e[1]))
-                if j is None:
-                    continue
                 if e[0] == 'sel':
                     node = e[2][v] if 0 <= v < len(e[2]) else None
-                    ok = ok and r[j] != -1 and 0 <= r[j] < len(E_ref[j][2]) and E_ref[j][2][r[j]] == node
-                elif e[2][0] == 'disc':
-                    ok = ok and r[j] in (v, -1)
+                    ok = ok and sigma.get(e[1]) == node
             if ok:
                 return False
         return True
